@@ -144,9 +144,24 @@ def _int_ranges(tree, ob):
             ob.violate(UAGENT, fv.qual, src(c)[:70], 'the interval comes from the peer unbounded and is emitted in an INT32 element: 2^31 or more cannot be marshalled and the emission fails in the io callback', c)
 
 
+def _item_defaults(tree, ob):
+    ''' the typer takes <item>.ack_length for an integer.  That holds from the moment the item exists only if the item class
+    starts it as one: it is emitted (signature element 't') for a transfer that is refused before its first XFER_ACK. '''
+    cls = tree.klass(SESS, 'BundleItem')
+    stores = [(f, st, k, v) for (f, st, k, v) in stores_to_self_attr(cls, 'ack_length') if f.name == '__init__']
+    ob.require(stores, 'BundleItem.__init__ sets ack_length')
+    for (f, st, k, v) in stores:
+        if isinstance(v, ast.Constant) and isinstance(v.value, int) and not isinstance(v.value, bool) and v.value >= 0:
+            ob.site(SESS, st, 'ack_length is an integer from the start')
+        else:
+            ob.violate(SESS, 'BundleItem.__init__', src(st), 'the acknowledged length of a new item is not an integer: send_bundle_finished(id, ack_length, ...) for a transfer refused before any XFER_ACK '
+                       'cannot be emitted (signature element \'t\'), the transfer never gets its finished signal and the session never turns idle', st)
+
+
 def c18a(tree, ob):
     _int_ranges(tree, ob)
     _variant_ints(tree, ob)
+    _item_defaults(tree, ob)
     for (rel, clsname) in CLASSES:
         sigs, _m = collect(tree, rel, clsname)
         ob.require(sigs, 'no signals found on ' + clsname)
@@ -295,6 +310,12 @@ def c18c(tree, ob):
         if not writes or not rem:
             raise AnalysisError('C18.c: unrecognised recv_bundle_pop_file in ' + rel)
         early = [r for r in rem if not all(fp.dominates(w, r)[0] for w in writes)]
+        # ... and closed: a buffered file reports "no space" only when the with-block flushes it on exit
+        inside = [r for r in rem if any(isinstance(a, ast.With) and any('open(' in src(i.context_expr) for i in a.items) for a in __import__('sa.core', fromlist=['ancestors']).ancestors(r))]
+        if inside and not early:
+            ob.violate(rel, fp.qual, src(inside[0])[:60] + ' inside the with-block of the output file', 'the transfer is removed from the receive queue before the output file is flushed and closed: a small '
+                       'bundle written to a full file system fails only at close, and by then the transfer is gone', inside[0])
+            continue
         if early:
             ob.violate(rel, fp.qual, src(early[0])[:60] + ' before the output file is written', 'the transfer is removed from the receive queue before the output file could be opened and written: '
                        'when that fails, a transfer announced as finished is gone and its data can never be obtained', early[0])
@@ -394,7 +415,28 @@ def c18c(tree, ob):
         ob.site(UAGENT, f, 'UDPCL queue then announce the same id')
 
 
+def _pend_ack_growth(tree, ob):
+    ''' "it becomes true once all of that has drained": what the idle predicate waits for must be able to drain.  A transfer
+    enters the awaiting-acknowledgement set only when its END segment has just been sent (the final XFER_ACK will take it
+    out again); added on any other occasion -- a teardown after a refusal -- nothing ever removes it. '''
+    cls = tree.klass(SESS, 'ContactHandler')
+    n = 0
+    for m in [x for x in cls.body if isinstance(x, ast.FunctionDef)]:
+        for c in calls_in(m):
+            if isinstance(c.func, ast.Attribute) and c.func.attr in ('add', 'update') and self_attr(c.func.value) == '_tx_pend_ack':
+                n += 1
+                fm = FuncView(tree, SESS, 'ContactHandler.' + m.name)
+                ended = any(t.endswith('& messages.TransferSegment.Flag.END') and p is True for (t, p) in (fm.facts(c) or ()))
+                if m.name == '_process_queue' and ended and [src(a) for a in c.args] == ['self._tx_tmp']:
+                    ob.site(SESS, c, 'awaiting-ack set grows only by the transfer whose END segment was just sent')
+                else:
+                    ob.violate(SESS, 'ContactHandler.' + m.name, src(c), 'a transfer is put into the awaiting-acknowledgement set although its END segment was not just sent (e.g. on a teardown '
+                               'after XFER_REFUSE): no acknowledgement will ever take it out, the idle indication never becomes true and a terminating session never closes', c)
+    ob.require(n >= 1, 'growth of _tx_pend_ack')
+
+
 def c18d(tree, ob):
+    _pend_ack_growth(tree, ob)
     fv = FuncView(tree, SESS, 'ContactHandler.is_sess_idle')
     rets = [r for r in walk_local(fv.func) if isinstance(r, ast.Return)]
     r = one(rets, 'return in ContactHandler.is_sess_idle', ob)
